@@ -8,7 +8,7 @@
 (c) ack fields on the wire: pair-engine sessions under loss/duplication/reordering;
     for every datagram an endpoint emits, header ack/ack_bits must name exactly
     the peer datagrams it has accepted among the newest 32, judged against the
-    monitor's own acceptance record (see mon/engines/pair.py, AckFieldMonitor).
+    monitor's own acceptance record (mon/engines/monitors.py: WireMonitor, RecvMonitor).
 """
 from mon.core.merge import merge, need
 from mon.core.util import Counter, h64, rng
@@ -33,7 +33,7 @@ def plan(tier, seed):
         for i in range(6):
             shards.append({"kind": "window", "tier": tier, "seed": seed, "shard": i, "n": 150, "subprocess": True})
         for i in range(4):
-            shards.append({"kind": "wire", "tier": tier, "seed": seed, "shard": i, "n": 6, "subprocess": True})
+            shards.append({"kind": "wire", "tier": tier, "seed": seed, "shard": i, "n": 4, "subprocess": True})
     else:
         k = 16
         for i in range(k):
@@ -194,12 +194,18 @@ def run_window(cfg, counters, violations, samples, distinct):
 
 
 def run_wire(cfg, counters, violations, samples, distinct):
-    try:
-        from mon.engines import pair
-    except Exception as e:                                   # engine not available
-        counters.inc("wire_engine_missing")
-        return 0
-    return pair.c08_wire_sessions(cfg, counters, violations, samples, distinct)
+    """lockstep sessions under loss/duplication/reordering with the wire/recv monitors: every emitted header's
+    ack and ack_bits and every duplicate verdict are compared with the monitor's own acceptance record; the
+    class-wide BitField shadow stays on for every window of every connection"""
+    from mon.props import c05
+    out = {"violations": [], "counters": Counter(), "samples": [], "distinct": set()}
+    n = c05.run_faults({"seed": cfg["seed"], "shard": cfg["shard"], "n": cfg["n"], "tier": cfg["tier"]}, out, props=("C08",), tag="C08",
+                       profiles_pool=["lossy", "dup", "reorder", "hostile", "slow", "acks-lost"])
+    counters.merge(out["counters"])
+    violations += out["violations"]
+    samples += out["samples"][:1]
+    distinct.update(out["distinct"])
+    return counters.get("wire_datagrams_checked", 0)
 
 
 def run_shard(cfg):
